@@ -781,7 +781,7 @@ type c07opt struct {
 
 var c07LenMenu = []c07opt{{false, 0}, {true, 0}, {true, 0.5}, {true, 1}}
 var c07SupMenu = []c07opt{{false, 0}, {true, 0.5}, {true, 0.7}, {true, 0.9}}
-var c07SupFull = []c07opt{{false, 0}, {true, 0}, {true, 0.5}, {true, 0.7}, {true, 0.9}}
+var c07SupFull = []c07opt{{false, 0}, {true, 0}, {true, 0.5}, {true, 0.7}, {true, 0.9}, {true, -0.5}} // supports are arbitrary numbers (internode certainty lies in [-1,1]); -1 itself is the code's "absent"
 
 // c07decorate clones sh and sets lengths/supports/names. tipLen / innerLen / innerSup give menu indexes per tip /
 // inner non-root node in pre-order; nil = a rotating pattern driven by rot. Inner nodes without support get a name on
